@@ -3,20 +3,55 @@ library is guarded: an exception raised by the implementation is an observable, 
 from __future__ import annotations
 
 import json
+import os
+import signal
 import sys
+
+
+class ImplementationTimeout(BaseException):
+    """The call into the library did not return within the per-call limit (observable 'Timeout')."""
+
+
+def _on_alarm(*_):
+    raise ImplementationTimeout()
+
+
+CALL_LIMIT = int(os.environ.get("VERIF_CALL_LIMIT", "10"))
 
 
 def exc_name(e: BaseException) -> str:
     return type(e).__name__
 
 
+_depth = [0]
+_timeouts = [0]
+
+
 def guarded(f):
+    """Runs a call into the library; exceptions and non-termination are observables.  Only the
+    outermost guarded call arms the timer (nested calls share it)."""
+    outer = _depth[0] == 0
+    if outer and _timeouts[0] >= 3:
+        return {"exc": "Timeout", "msg": "not run: the implementation already failed to return three times in this batch"}
+    _depth[0] += 1
+    if outer:
+        signal.signal(signal.SIGALRM, _on_alarm)
+        signal.alarm(CALL_LIMIT)
     try:
         return {"ok": f()}
+    except ImplementationTimeout:
+        if not outer:
+            raise
+        _timeouts[0] += 1
+        return {"exc": "Timeout", "msg": f"no result within {CALL_LIMIT}s"}
     except BaseException as e:  # noqa: B902 - implementation exceptions are observables
         if isinstance(e, (KeyboardInterrupt, SystemExit)):
             raise
         return {"exc": exc_name(e), "msg": str(e)[:200]}
+    finally:
+        _depth[0] -= 1
+        if outer:
+            signal.alarm(0)
 
 
 def main(handler):
